@@ -269,6 +269,9 @@ def check_history(case, rec):
     sv_state = {}       # (model, target) -> last request whose parameters were set on that object
     for r in out:
         step = steps[r["i"]]
+        if r.get("intermediates_changed"):
+            rec.fail("intermediates-overwritten", "the intermediate results handed out by step %d changed when step %d (%s) ran"
+                     % (r["intermediates_changed"][0], r["i"], r.get("op")))
         if r.get("clobbered"):
             j, op_j = r["clobbered"][0]
             rec.fail("result-overwritten:" + op_j, "the result returned by step %d (%s) changed when step %d (%s) ran"
